@@ -1,4 +1,4 @@
 CONSTANT Families <- DeepFamilies
 SPECIFICATION Spec
-INVARIANTS DeltaOK DeltaWF CloseOK Quiet
+INVARIANTS DeltaOK DeltaWF CloseOK Quiet LinkOK LinkCloseOK
 CHECK_DEADLOCK FALSE
